@@ -68,6 +68,13 @@ func HarnessC05BlockingOrder() {
 		}()
 	}
 	m0, m1 := newMsg(0), newMsg(1)
+	if vrt.Bool("published.messages.carry.a.cancelled.context") {
+		// what the publisher's message object carries (the CQRS buses set a context) has no say in how long Publish waits
+		cctx, ccancel := context.WithCancel(context.Background())
+		ccancel()
+		m0.SetContext(cctx)
+		m1.SetContext(cctx)
+	}
 	if vrt.Bool("one.call") {
 		vrt.Assert(g.Publish("t", m0, m1) == nil, "publish batch")
 	} else {
